@@ -1099,7 +1099,7 @@ class Engine:
         ln = self.val(st, fr, ins['len'])
         cp = self.val(st, fr, ins['cap'])
         el = self.ut(ins['t'])['elem']
-        lim = self.opts.get('max_make', 4096)
+        lim = self.opts.get('max_make', 8192)
         # Go: panics if len < 0, cap < len (cap out of range), or too large
         if is_sym(ln) or is_sym(cp):
             lnb, cpb = bv(ln, 64), bv(cp, 64)
